@@ -51,6 +51,18 @@ func (s *c17Store) Remove(ctx context.Context, key string) error {
 	return nil
 }
 
+// lookup: the stored record of a key (what a fresh process would read back)
+func (s *c17Store) lookup(key string) (api.MetaMsg, bool) {
+	v, ok := s.data[key]
+	return v, ok
+}
+
+// c17Backend: the store behind the implementation plus a way to read one record back
+type c17Backend interface {
+	api.ReplicateStore
+	lookup(key string) (api.MetaMsg, bool)
+}
+
 // ---- set helpers over symbolic strings (no forking) ----
 
 func c17In(x string, set []string) bool {
@@ -127,10 +139,10 @@ func c17Mem(impl *ReplicateMeteImpl, sl *c17Slot) (api.BaseTaskMsg, bool) {
 }
 
 // c17CheckAll: memory == store == reference for every slot.
-func c17CheckAll(impl *ReplicateMeteImpl, st *c17Store, slots []*c17Slot, target []string, tag string) {
+func c17CheckAll(impl *ReplicateMeteImpl, st c17Backend, slots []*c17Slot, target []string, tag string) {
 	for _, sl := range slots {
 		mem, inMem := c17Mem(impl, sl)
-		sv, inStore := st.data[GetMetaKey(sl.task, sl.msg)]
+		sv, inStore := st.lookup(GetMetaKey(sl.task, sl.msg))
 		vAssert(inMem == sl.present, "C17.memory-has-exactly-the-live-messages"+tag)
 		vAssert(inStore == sl.present, "C17.store-has-exactly-the-live-messages"+tag)
 		if !sl.present || !inMem || !inStore {
@@ -147,7 +159,7 @@ func c17CheckAll(impl *ReplicateMeteImpl, st *c17Store, slots []*c17Slot, target
 	}
 }
 
-func c17Step(impl *ReplicateMeteImpl, st *c17Store, slots []*c17Slot, target []string, L int) *ReplicateMeteImpl {
+func c17Step(impl *ReplicateMeteImpl, st c17Backend, slots []*c17Slot, target []string, L int) *ReplicateMeteImpl {
 	switch vChoice("op", 3) {
 	case 0: // a shard reports the pending drop
 		sl := slots[vChoice("slot", len(slots))]
@@ -176,10 +188,16 @@ func c17Step(impl *ReplicateMeteImpl, st *c17Store, slots []*c17Slot, target []s
 func VerifC17_History() {
 	K, S, L := vParam("K", 3), vParam("S", 3), vParam("L", 2)
 	target := c17Targets(S, L)
-	st := &c17Store{data: map[string]api.MetaMsg{}}
+	var st c17Backend = &c17Store{data: map[string]api.MetaMsg{}}
+	slots := c17Slots()[:vParam("slots", 4)]
+	if vParam("ETCD", 0) == 1 {
+		// the real etcd replicate store over a modelled etcd; message ids that are string
+		// prefixes of one another (drop-collection-1 / drop-collection-10)
+		st = c17NewEtcdBackend()
+		slots = c17PrefixSlots()
+	}
 	impl, err := NewReplicateMetaImpl(st)
 	vAssert(err == nil, "C17.new-on-empty-store")
-	slots := c17Slots()[:vParam("slots", 4)]
 	for k := 0; k < K; k++ {
 		impl = c17Step(impl, st, slots, target, L)
 		c17CheckAll(impl, st, slots, target, "")
@@ -222,3 +240,6 @@ func VerifC17_Step() {
 	c17CheckAll(impl, st, slots, target, "")
 	vReach("end")
 }
+
+// VerifC17_EtcdHistory: the histories of VerifC17_History on the real etcd replicate store
+func VerifC17_EtcdHistory() { VerifC17_History() }
